@@ -4,7 +4,7 @@ import numpy as np
 import gens, floatcorr
 
 GEN = ['numeric']
-LEAN_MODULES = ['XfabVerif.Proofs.C13']
+LEAN_MODULES = ['XfabVerif.Proofs.C13', 'XfabVerif.Proofs.C13Full']
 LEAN_DRIVER_MODULES = ['XfabVerif.Gen.FloatDispatch']
 RULE = ("cells from gens.cell (orthogonal … strongly oblique, Gram factor >= 0.02), strain components uniform in [-0.1,0.1] (every 8th case zero strain), "
         "rotations from gens.rotation; non-trivial = non-orthogonal cell and non-zero strain; distinct = distinct (cell, strain, U) tuples")
